@@ -18,6 +18,13 @@ SmallHosts  == {"lower", "dot", "ipv4"}
 DnsHostOnly == {"lower"}
 IpHostOnly  == {"ipv4"}
 NoDefects   == {}
+OnlyDefaultStoreDeviation == {"DefaultStoreAlsoTrusted"}
+AllSans     == SanL
+DnsSans     == {"exact", "mismatch", "cn_only"}
+IpSans      == {"wildcard", "ip_match", "ip_mismatch"}
+QuickSans   == {"exact", "cn_only", "ip_mismatch"}
+TwoSans     == {"exact", "mismatch"}
+OneSan      == {"exact"}
 
 \* backend x route as ONE factor so that the index space is a plain product (TLS-in-TLS does not
 \* exist for pyOpenSSL)
@@ -30,14 +37,22 @@ StackRoute(s) == CASE s \in {"ssl/direct", "pyopenssl/direct"} -> "direct"
                    [] s = "ssl/tunnel_https_pinned" -> "tunnel_https_pinned"
                    [] OTHER -> "tunnel_https_bad"
 
+\* caller context x CA source as ONE factor (CAs travel inside the caller's context iff there is one)
+Trusts == <<"none/file", "none/data", "none/dir", "none/none",
+            "default_like/ctx", "nocheck/ctx", "mode_none/ctx", "urllib3_ctx/ctx">>
+TrustCtx(t) == CASE t = "default_like/ctx" -> "default_like" [] t = "nocheck/ctx" -> "nocheck"
+                 [] t = "mode_none/ctx" -> "mode_none" [] t = "urllib3_ctx/ctx" -> "urllib3_ctx" [] OTHER -> "none"
+TrustCa(t) == CASE t = "none/file" -> "file" [] t = "none/data" -> "data" [] t = "none/dir" -> "dir"
+                [] t = "none/none" -> "none" [] OTHER -> "ctx"
+
 \* factor order and level order define the lattice index (mixed radix, first factor fastest)
 Factors == <<
     [name |-> "reqs",   levels |-> <<"default", "REQUIRED", "OPTIONAL", "NONE">>],
     [name |-> "ah",     levels |-> <<"unset", "False", "match", "mismatch">>],
     [name |-> "fp",     levels |-> <<"unset", "right", "wrong", "badlen">>],
     [name |-> "sh",     levels |-> <<"unset", "match", "mismatch">>],
-    [name |-> "ctx",    levels |-> <<"none", "default_like", "nocheck", "mode_none", "urllib3_ctx">>],
-    [name |-> "issuer", levels |-> <<"trusted", "untrusted">>],
+    [name |-> "trust",  levels |-> Trusts],
+    [name |-> "issuer", levels |-> <<"trusted", "untrusted", "default_store">>],
     [name |-> "san",    levels |-> <<"exact", "wildcard", "mismatch", "ip_match", "ip_mismatch", "cn_only">>],
     [name |-> "host",   levels |-> <<"lower", "upper", "dot", "ipv4", "ipv6zone">>],
     [name |-> "stack",  levels |-> Stacks] >>
@@ -51,7 +66,7 @@ Decode(i, k) == IF k > Len(Factors) THEN <<>>
                 ELSE <<Factors[k].levels[(i % Len(Factors[k].levels)) + 1]>> \o Decode(i \div Len(Factors[k].levels), k + 1)
 
 CfgOfIdx(i) == LET d == Decode(i, 1) IN
-    [reqs |-> d[1], ah |-> d[2], fp |-> d[3], sh |-> d[4], ctx |-> d[5],
+    [reqs |-> d[1], ah |-> d[2], fp |-> d[3], sh |-> d[4], ctx |-> TrustCtx(d[5]), casrc |-> TrustCa(d[5]),
      backend |-> StackBackend(d[9]), route |-> StackRoute(d[9])]
 SrvOfIdx(i) == LET d == Decode(i, 1) IN [issuer |-> d[6], san |-> d[7], host |-> d[8]]
 
@@ -62,11 +77,25 @@ InLattice(i) == CfgOfIdx(i) \in Cfg /\ SrvOfIdx(i) \in Srv
 ASSUME PrintT("LATTICE|" \o ToJson([factors |-> Factors, size |-> LatticeSize]))
 \* the level sequences enumerate exactly the level sets of the specification
 ASSUME /\ Range(Factors[1].levels) = ReqsL /\ Range(Factors[2].levels) = AHL /\ Range(Factors[3].levels) = FPL
-       /\ Range(Factors[4].levels) = SHL /\ Range(Factors[5].levels) = CtxL /\ Range(Factors[6].levels) = IssuerL
+       /\ Range(Factors[4].levels) = SHL /\ Range(Factors[6].levels) = IssuerL
+       /\ {<<TrustCtx(Trusts[x]), TrustCa(Trusts[x])>> : x \in DOMAIN Trusts}
+              = {<<c, a>> \in CtxL \X CaSrcL : ValidTrust(c, a)}
        /\ Range(Factors[7].levels) = SanL /\ Range(Factors[8].levels) = HostL
        /\ {<<StackBackend(Stacks[x]), StackRoute(Stacks[x])>> : x \in DOMAIN Stacks}
               = {<<b, r>> \in BackendL \X RouteL : ValidStack(b, r)}
        /\ \A k \in DOMAIN Factors : Cardinality(Range(Factors[k].levels)) = Len(Factors[k].levels)
+
+\* The named deviation "DefaultStoreAlsoTrusted" is refuted on a concrete witness in EVERY run of this
+\* module (and by a full model-checking run in the thorough tier): CA given as ca_cert_data only, server
+\* certificate signed by a CA that is only in the default trust store.  With the deviation the model
+\* sends (clause violated); without it the model blocks.
+WitnessCfg == [reqs |-> "default", ah |-> "unset", fp |-> "unset", sh |-> "unset", ctx |-> "none", casrc |-> "data",
+               backend |-> "ssl", route |-> "direct"]
+WitnessSrv == [issuer |-> "default_store", san |-> "exact", host |-> "lower"]
+ASSUME /\ ~R_SentImpliesDemandedPassed(WitnessCfg, WitnessSrv,
+                                        ObsOf(FinalKD(WitnessCfg, WitnessSrv, {"DefaultStoreAlsoTrusted"})))
+       /\ RulesClause(WitnessCfg, WitnessSrv, ObsOf(FinalKD(WitnessCfg, WitnessSrv, {}))) = "ok"
+       /\ FinalKD(WitnessCfg, WitnessSrv, {}).pc = "raised"
 
 -----------------------------------------------------------------------------
 (* stage 2: emission                                                                            *)
@@ -86,13 +115,14 @@ RECURSIVE Encode(_, _, _)
 Encode(d, k, mult) == IF k > Len(Factors) THEN 0
                       ELSE (CHOOSE x \in 1..Len(Factors[k].levels) : Factors[k].levels[x] = d[k]) * mult - mult
                            + Encode(d, k + 1, mult * Len(Factors[k].levels))
+TrustOf(cfg) == CHOOSE t \in Range(Trusts) : TrustCtx(t) = cfg.ctx /\ TrustCa(t) = cfg.casrc
 StackOf(cfg) == CHOOSE s \in Range(Stacks) : StackBackend(s) = cfg.backend /\ StackRoute(s) = cfg.route
-IdxOf(cfg, srv) == Encode(<<cfg.reqs, cfg.ah, cfg.fp, cfg.sh, cfg.ctx, srv.issuer, srv.san, srv.host, StackOf(cfg)>>, 1, 1)
+IdxOf(cfg, srv) == Encode(<<cfg.reqs, cfg.ah, cfg.fp, cfg.sh, TrustOf(cfg), srv.issuer, srv.san, srv.host, StackOf(cfg)>>, 1, 1)
 
 PointRec(s) ==
     [idx |-> IdxOf(s.cfg, s.srv),
      p |-> [reqs |-> s.cfg.reqs, ah |-> s.cfg.ah, fp |-> s.cfg.fp, sh |-> s.cfg.sh, ctx |-> s.cfg.ctx,
-            backend |-> s.cfg.backend, route |-> s.cfg.route,
+            casrc |-> s.cfg.casrc, backend |-> s.cfg.backend, route |-> s.cfg.route,
             issuer |-> s.srv.issuer, san |-> s.srv.san, host |-> s.srv.host],
      mode |-> EffMode(s.cfg), nameterm |-> NameTerm(s.cfg),
      demanded |-> SetToSeq(AllDemanded(s.cfg)),
